@@ -3,6 +3,7 @@ INIT TInit
 NEXT TNext
 CONSTANTS
   MaxCount = 2
+  MaxCountLater = 2
 INVARIANT Conservation
 INVARIANT BatchBounds
 INVARIANT ExactlyOnceAtRest
